@@ -23,7 +23,7 @@ ASSUMPTIONS = [
     "two comments on one source line are outside the claimed placements (the parser keys comments by line)",
 ]
 TIERS = {
-    "quick": {"examples": 4000, "budget_s": 110},
+    "quick": {"examples": 10000, "budget_s": 110},
     "thorough": {"examples": 80000, "budget_s": 1800, "corpus_options": 6},
 }
 PARTS = ["corpus_part", "search"]
